@@ -251,3 +251,12 @@ package auth
 //@   modifies ghostAll("misc")
 //@   fresh t
 //@   ensures t != nil && sameStr(t.Username, username)
+
+// ---- the JSON provider (C18): every flush, whatever the table holds (also an EMPTY table), goes through the crash-safe
+// writer, so the file is the complete previous or the complete new table at every moment and the new one on success;
+// in particular the file is never removed (a missing users.json is read as "first start": built-in administrator)
+//@ func (p *jsonProvider) Flush(full []*User, saves []*User, removes []*User) (err error)
+//@   requires p != nil && disk(p.filePath) == 0 && len(p.filePath) < 1<<30
+//@   modifies all()
+//@   ensures disk(old(p.filePath)) == 0 || disk(old(p.filePath)) == 1
+//@   ensures err == nil ==> disk(old(p.filePath)) == 1
